@@ -364,6 +364,7 @@ fn clean_item(it: &mut syn::Item, derive_keep: &[String], subst: &BTreeMap<Strin
 // ---- function transformation
 
 struct Rules {
+    closure_wildcards: bool,
     let_chains: bool,
     then_with: bool,
     tail_continue: bool,
@@ -477,6 +478,26 @@ impl<'a> VisitMut for RuleVisitor<'a> {
                 if last_seg(&m.mac.path) == "format" {
                     *e = parse_quote!(verif_any_string());
                     self.applied.bump("E5-format-to-any-string");
+                }
+            }
+        }
+    }
+
+    fn visit_expr_closure_mut(&mut self, c: &mut syn::ExprClosure) {
+        visit_mut::visit_expr_closure_mut(self, c);
+        if self.rules.closure_wildcards {
+            // E11: a wildcard closure parameter `|_|` is given a name that the body cannot mention (Verus wants variables)
+            let mut n: usize = 0;
+            for p in c.inputs.iter_mut() {
+                let is_wild = matches!(p, syn::Pat::Wild(_)) || matches!(p, syn::Pat::Type(pt) if matches!(*pt.pat, syn::Pat::Wild(_)));
+                if is_wild {
+                    let id = format_ident!("_vx_unused{}", n);
+                    n += 1;
+                    match p {
+                        syn::Pat::Type(pt) => *pt.pat = parse_quote!(#id),
+                        other => *other = parse_quote!(#id),
+                    }
+                    self.applied.bump("E11-closure-wildcard-named");
                 }
             }
         }
@@ -784,6 +805,7 @@ fn transform_fn(
         .map(|a| a.iter().filter_map(|x| x.as_str().map(String::from)).collect())
         .unwrap_or_default();
     let rules = Rules {
+        closure_wildcards: rule_list.iter().any(|r| r == "E11"),
         let_chains: rule_list.iter().any(|r| r == "E10"),
         then_with: rule_list.iter().any(|r| r == "E4"),
         tail_continue: rule_list.iter().any(|r| r == "E9"),
